@@ -42,10 +42,12 @@ STRING_FORMATS = {
     "lower": lambda s: s == s.lower(),
     "len3": lambda s: len(s.encode("utf-16-le")) // 2 >= 3,
     "aprefix": lambda s: s.startswith("a"),
+    "code": lambda s: len(s.encode("utf-16-le")) // 2 <= 4,
 }
 NUMBER_FORMATS = {
     "nonneg": lambda n: n >= 0,
     "int": lambda n: float(n).is_integer(),
+    "code": lambda n: n < 100,
 }
 
 
